@@ -64,6 +64,27 @@ func loadWitnesses() ([]Witness, error) {
 		}
 		ws = append(ws, w)
 	}
+	// reverse patches of the fix: commits (witness/reverts/Dn.diff)
+	if rb, err := os.ReadFile(filepath.Join(home, "witness", "reverts", "meta.json")); err == nil {
+		var rm map[string]struct {
+			Props  []string `json:"props"`
+			Expect string   `json:"expect_rule"`
+			Note   string   `json:"note"`
+		}
+		if err := json.Unmarshal(rb, &rm); err != nil {
+			return nil, fmt.Errorf("witness/reverts/meta.json: %v", err)
+		}
+		var ids []string
+		for id := range rm {
+			ids = append(ids, id)
+		}
+		sort.Strings(ids)
+		for _, id := range ids {
+			m := rm[id]
+			ws = append(ws, Witness{ID: "revert/" + id, Kind: "breaking", Props: m.Props, Expect: m.Expect,
+				Patch: filepath.Join("witness", "reverts", id+".diff"), Note: m.Note})
+		}
+	}
 	// behaviour-preserving refactors written by independent sub-agents
 	// (witness/benign/<prop>-bN.diff): the property's check must stay silent
 	bens, _ := filepath.Glob(filepath.Join(home, "witness", "benign", "*.diff"))
